@@ -64,11 +64,18 @@ def string_literal(n):
 
 
 def ret_expr(n):
-    """classify the expression of a `return` in a display method."""
+    """the expression of a `return` in a display method as a list of parts (string concatenation)."""
     lit = string_literal(n)
     if lit is not None:
-        return ("lit", lit)
+        return [("lit", lit)]
     e = peel(n)
+    k = e.get("kind")
+    if k == "CXXOperatorCallExpr" and callee_name(e) == "operator+" and len(kids(e)) == 3:
+        return ret_expr(kids(e)[1]) + ret_expr(kids(e)[2])
+    return [ret_atom(e)]
+
+
+def ret_atom(e):
     k = e.get("kind")
     if k == "CallExpr" and callee_name(e) == "to_string":
         arg = kids(e)[1]
@@ -281,13 +288,13 @@ def translate():
                     if disp:
                         specs = display_body(disp[0], 1)
                     else:
-                        specs = {i: ("base_default",) for i in range(4)}
+                        specs = {i: [("base_default",)] for i in range(4)}
                     tpls = []
                     for i in range(4):
                         sp = specs[i]
-                        if sp[0] == "lit":
-                            tpls.append(sp[1])
-                        elif sp[0] == "base_default":
+                        if all(x[0] == "lit" for x in sp):
+                            tpls.append(b"".join(x[1] for x in sp))
+                        elif sp == [("base_default",)]:
                             tpls.append(default_template(name, arity))
                         else:
                             raise Refuse("%s: function display returns %r" % (key, sp))
@@ -296,7 +303,7 @@ def translate():
                     if disp:
                         specs = display_body(disp[0], 2)
                     else:
-                        specs = {i: ("term_default",) for i in range(4)}
+                        specs = {i: [("term_default",)] for i in range(4)}
                     terminals.append((key, name, [specs[i] for i in range(4)]))
     # constants and variables (class templates / classes directly in vita::)
     for filt, key in (("vita::constant", "constant"), ("vita::variable", "variable")):
@@ -380,7 +387,7 @@ def render(functions, terminals):
     rows = []
     for key, name, specs in terminals:
         rows.append("  { key := %s, name := %s,\n    disp := [%s] }" %
-                    (lean_str(key), lean_bytes(name or b""), ", ".join(spec_lean(s) for s in specs)))
+                    (lean_str(key), lean_bytes(name or b""), ", ".join("[" + ", ".join(spec_lean(x) for x in s) + "]" for s in specs)))
     o.append(",\n".join(rows))
     o.append("]")
     o.append("")
